@@ -682,6 +682,79 @@ def _lit(e):
     return None
 
 
+def v6(rep, src):
+    """The sampler: the noise added to a column is sigma times a standard normal draw (Box-Muller), and relations add it with the sigma they are given."""
+    from .util_terms import builder_table, fmt
+    from .c01 import run_anchor
+
+    rep.rule(
+        "V6",
+        "the sampler (expr/rewriting.rs): Expr::gaussian_noise() is the Box-Muller term sqrt(-2 * ln(random())) * cos(2*PI * random()) over two separate random() draws - natural logarithm, "
+        "factor -2, cosine of 2*PI times the second draw - and Expr::add_gaussian_noise(self, sigma) is self + sigma * gaussian_noise()",
+        floor=2,
+        necessary="the event records sigma / C; the draw must have standard deviation sigma: with log10 instead of ln the term has standard deviation 0.66, so the noise applied is 0.66 * sigma "
+        "while the recorded multiplier stays the same",
+    )
+    tb = builder_table(src)
+    key = "Expr::gaussian_noise"
+    fn, it, v = run_anchor(src, tb, "gaussian_noise", "expr/rewriting.rs", "Expr")
+
+    def is_x(t, name, n=None):
+        return isinstance(t, tuple) and len(t) == 3 and t[0] == "x" and t[1] == name and (n is None or len(t[2]) == n)
+
+    def val_of(t):
+        if is_x(t, "val", 1):
+            return t[2][0]
+        return t
+
+    def is_random(t):
+        return isinstance(t, tuple) and t[0] == "app" and t[1] == "Expr::random"
+
+    def two_pi(t):
+        t = val_of(t)
+        if t == ("app", "*", (("num", 2), ("p", "PI"))) or t == ("app", "*", (("p", "PI"), ("num", 2))):
+            return True
+        if isinstance(t, tuple) and t[0] == "app" and t[1] == "*" and len(t[2]) == 2:
+            a, b = t[2]
+            nums = [x for x in (a, b) if x[0] == "num"]
+            pis = [x for x in (a, b) if x[0] == "p" and x[1].split("::")[-1] in ("PI",)]
+            return len(nums) == 1 and len(pis) == 1 and float(nums[0][1]) == 2.0
+        if isinstance(t, tuple) and t[0] == "p" and t[1].split("::")[-1] == "TAU":
+            return True
+        return False
+
+    ok, why = False, fmt(v)[:200]
+    if is_x(v, "Multiply", 2):
+        for a, b in ((v[2][0], v[2][1]), (v[2][1], v[2][0])):
+            if is_x(a, "Sqrt", 1) and is_x(b, "Cos", 1) and is_x(a[2][0], "Multiply", 2) and is_x(b[2][0], "Multiply", 2):
+                m1, m2 = a[2][0][2], b[2][0][2]
+                for c, l in ((m1[0], m1[1]), (m1[1], m1[0])):
+                    cv = val_of(c)
+                    if cv[0] == "num" and float(cv[1]) == -2.0 and is_x(l, "Ln", 1) and is_random(l[2][0]):
+                        for p2, r2 in ((m2[0], m2[1]), (m2[1], m2[0])):
+                            if two_pi(p2) and is_random(r2):
+                                ok = True
+    rep.instance("V6", key, {"term": fmt(v)[:300], "is_box_muller": ok})
+    if not ok:
+        rep.violation("V6", key, "Expr::gaussian_noise is not sqrt(-2 * ln(random())) * cos(2*PI * random()): %s" % why, fn.where())
+    # two separate draws: the function calls Expr::random twice (the two uniform variables of Box-Muller must be independent)
+    draws = [c for c in find(fn.body, "call") if is_call_to(c, "Expr::random")]
+    if len(draws) != 2:
+        rep.violation("V6", key + "@draws", "Box-Muller needs two independent uniform draws, found %d Expr::random call(s)" % len(draws), fn.where())
+    key2 = "Expr::add_gaussian_noise"
+    fn2, it2, v2 = run_anchor(src, tb, "add_gaussian_noise", "expr/rewriting.rs", "Expr")
+    ok2 = False
+    if is_x(v2, "Plus", 2):
+        for a, b in ((v2[2][0], v2[2][1]), (v2[2][1], v2[2][0])):
+            if a == ("p", "self") and is_x(b, "Multiply", 2):
+                for c, g in ((b[2][0], b[2][1]), (b[2][1], b[2][0])):
+                    if val_of(c) == ("p", "sigma") and g == ("app", "Expr::gaussian_noise", ()):
+                        ok2 = True
+    rep.instance("V6", key2, {"term": fmt(v2)[:200], "is_self_plus_sigma_times_draw": ok2})
+    if not ok2:
+        rep.violation("V6", key2, "Expr::add_gaussian_noise(self, sigma) is not self + sigma * gaussian_noise(): %s" % fmt(v2)[:200], fn2.where())
+
+
 def v4(rep, src):
     """Closed terms of the Gaussian calibration in dp_event.rs (classical analytic bound, Dwork & Roth Thm 3.22)."""
     rep.rule(
@@ -878,6 +951,7 @@ def run(rep):
     v3(rep, src)
     v4(rep, src)
     v5(rep, src)
+    v6(rep, src)
     rep.assume("MIR facts are those of `cargo check --lib` with default features (cfg(test) code is not analysed)")
     rep.assume("a call whose arguments hold no event and whose result type can hold one produces a fresh event (origin); calls with event arguments propagate them")
     rep.assume("the share field tau_thresholding_share lies in [0,1] and counts are >= 1 where stated (guard or iteration checked)")
